@@ -8,7 +8,7 @@ for d in sorted(glob.glob("/verif/seeded/*")):
     name = os.path.basename(d)
     files = sorted({l[6:].strip() for l in open(os.path.join(d, "patch.diff")) if l.startswith("+++ b/")})
     det = m["detected_by"].replace("|", "\\|")
-    first = "missed → widened" if "MISSED" in det else ("hand-made" if "hand" in " ".join(m.get("what_was_run", [])) else ("NOT caught" if det.startswith("NOT DETECTED") else "caught"))
+    first = "missed → widened" if ("MISSED" in det or "after widening" in det) else ("hand-made" if "hand" in " ".join(m.get("what_was_run", [])) else ("NOT caught" if det.startswith("NOT DETECTED") else "caught"))
     if first.startswith("missed"):
         miss += 1
     rows.append("| %s | %s | %s | %s | %s |" % (name, ", ".join("`%s`" % f for f in files), m["needs_to_manifest"].replace("|", "\\|"), det, first))
